@@ -89,6 +89,46 @@ C19-r2m1 C19
 C19-r2m2 C19
 C20-r2m1 C20
 C20-r2m2 C20
+C01-r3m1 C01
+C01-r3m2 C01
+C02-r3m1 C02
+C02-r3m2 C02
+C03-r3m1 C03
+C03-r3m2 C03
+C04-r3m1 C04 C13
+C04-r3m2 C04 C18
+C05-r3m1 C05
+C05-r3m2 C05
+C06-r3m1 C06
+C06-r3m2 C06
+C07-r3m1 C07
+C07-r3m2 C07
+C08-r3m1 C08
+C08-r3m2 C08 C07
+C09-r3m1 C09
+C09-r3m2 C09 C01
+C10-r3m1 C10
+C10-r3m2 C10
+C11-r3m1 C11
+C11-r3m2 C11
+C12-r3m1 C12 C05
+C12-r3m2 C13 C12
+C13-r3m1 C13
+C13-r3m2 C13
+C14-r3m1 C14
+C14-r3m2 C14
+C15-r3m1 C15
+C15-r3m2 C15
+C16-r3m1 C16
+C16-r3m2 C16
+C17-r3m1 C17
+C17-r3m2 C17 C07
+C18-r3m1 C18
+C18-r3m2 C18
+C19-r3m1 C19 C08
+C19-r3m2 C19
+C20-r3m1 C20
+C20-r3m2 C20
 revert-D1 C08 C19
 revert-D2 C13
 revert-D3 C19
